@@ -10,6 +10,7 @@
 #include <cstdint>
 #include <cstddef>
 #include <new>
+#include <cstring>
 
 using M = pgm::MappedPGMIndex<KEY, EPS, EPSREC>;
 using MBase = pgm::PGMIndex<KEY, EPS, EPSREC>;
@@ -31,6 +32,10 @@ extern "C" __attribute__((noinline)) int u_mapped(const KEY *d, size_t n, const 
     try {
         alignas(M) unsigned char storage[sizeof(M)];
         M *m = pgm_verif_access::make(storage, d, n);
+#ifdef WITH_FRAME
+        unsigned char obj0[sizeof(M)], obj1[sizeof(M)];
+        std::memcpy(obj0, static_cast<const void *>(m), sizeof(M));
+#endif
         out[0] = m->lower_bound(*q) - m->begin();
         out[1] = m->upper_bound(*q) - m->begin();
         out[2] = m->count(*q);
@@ -38,6 +43,15 @@ extern "C" __attribute__((noinline)) int u_mapped(const KEY *d, size_t n, const 
         out[4] = m->size();
         out[5] = m->begin() == d;
         out[6] = m->end() - m->begin();
+#ifdef WITH_FRAME
+        {   // C16 frame condition: every byte of the container object is unchanged by the queries, which are deterministic
+            std::memcpy(obj1, static_cast<const void *>(m), sizeof(M));
+            bool same = true;
+            for (size_t i = 0; i < sizeof(M) && same; ++i) same = obj0[i] == obj1[i];
+            same = same && size_t(m->lower_bound(*q) - m->begin()) == out[0] && size_t(m->upper_bound(*q) - m->begin()) == out[1] && m->count(*q) == out[2];
+            out[7] = same;
+        }
+#endif
         pgm_verif_access::destroy(m);
         return 0;
     } catch (const std::invalid_argument &) { return 1; }
